@@ -146,6 +146,21 @@ theorem C07.cachePlan_spec (n0 : Nat) (r : Roles) (keep : List Name) (presel : O
       simp only [List.mem_cons, List.not_mem_nil, or_false] at hop
       rcases hop with rfl | rfl | rfl <;> simp [target] at hx <;> omega
 
+theorem C07.compositePlan_spec (n0 : Nat) (presel : Option Sel) (draw : List Int) :
+    (∀ op ∈ (compositePlan n0 presel draw).1, ∀ x, target op = some x → n0 ≤ x) ∧ n0 ≤ (compositePlan n0 presel draw).2 := by
+  unfold compositePlan
+  cases presel with
+  | none =>
+    refine ⟨?_, by simp only; omega⟩
+    intro op hop x hx
+    simp only [List.mem_cons, List.not_mem_nil, or_false] at hop
+    rcases hop with rfl | rfl <;> simp [target] at hx <;> omega
+  | some sel =>
+    refine ⟨?_, by simp only; omega⟩
+    intro op hop x hx
+    simp only [List.mem_cons, List.not_mem_nil, or_false] at hop
+    rcases hop with rfl | rfl | rfl <;> simp [target] at hx <;> omega
+
 /-- the roles after an operation: the stored containers keep their roles, a new cache is not a stored container -/
 theorem C07.compile_roles (n0 : Nat) (r : Roles) (gop : GOp) (hr : C07.RolesOK n0 r) :
     (compile n0 r gop).2.1.exp = r.exp ∧ (compile n0 r gop).2.1.mc = r.mc ∧
@@ -158,6 +173,7 @@ theorem C07.compile_roles (n0 : Nat) (r : Roles) (gop : GOp) (hr : C07.RolesOK n
     subst hc
     exact (C07.cachePlan_spec n0 r keep presel hr).2.1
   | genFixed _ => exact ⟨rfl, rfl, hr.2.2⟩
+  | genComposite _ _ _ _ _ _ => exact ⟨rfl, rfl, hr.2.2⟩
   | genSig _ => exact ⟨rfl, rfl, hr.2.2⟩
   | merge _ _ => exact ⟨rfl, rfl, hr.2.2⟩
   | initTrial _ _ => exact ⟨rfl, rfl, hr.2.2⟩
@@ -200,6 +216,15 @@ theorem c07_compile_targets (n0 : Nat) (r : Roles) (gop : GOp) (hr : RolesOK n0 
     · subst h; simp [target] at hx
     · rw [mem_setItems h] at hx; cases hx; exact big _ p3
     · subst h; simp only [target, Option.some.injEq] at hx; subst hx; exact big _ p3
+  | genComposite keep sets rates presel draw expFields =>
+    obtain ⟨q1, q2⟩ := C07.compositePlan_spec n0 presel draw
+    simp only [compile, List.mem_append, List.mem_singleton] at hop
+    rcases hop with (((h | h) | h) | h) | h
+    · subst h; simp [target] at hx
+    · rw [mem_setItems h] at hx; cases hx; exact big _ (le_refl _)
+    · rw [mem_setItems h] at hx; cases hx; exact big _ (le_refl _)
+    · exact big _ (q1 op h x hx)
+    · subst h; simp only [target, Option.some.injEq] at hx; subst hx; exact big _ q2
   | genSig cols =>
     simp only [compile, List.mem_singleton] at hop
     subst hop; simp [target] at hx
